@@ -124,7 +124,7 @@ class Analysis:
                 self.results.append((ri, si, None))
         out = ctx.model(lines)
         # second phase: reference rounds
-        rlines, rindex = [], []
+        rlines, rindex, plines = [], [], []
         for ri, si, a, b, info in index:
             rec = self.recs[ri]; st = rec["steps"][si]
             K = info["K"]
@@ -166,6 +166,10 @@ class Analysis:
                 variants = [(dom, cov, hold)]
             info["variants"] = variants
             info["undecided"] = undecided
+            info["pess_line"] = None
+            if fam == "vg" and info["kind"] == "rect" and st["log"].get("pess_impl") is not None:
+                info["pess_line"] = len(plines)
+                plines.append(f"vg_pess {algrun.enc_tab(variants[0][2])} {S} {P}")
             for v in variants:
                 d, c, p = (algrun.enc_tab(x) for x in v)
                 if fam == "pv":
@@ -176,11 +180,14 @@ class Analysis:
                     rlines.append(f"au_round {d} {c} {p} {S} {P}")
             rindex.append((ri, si, len(rlines) - len(variants), len(variants), info))
         rout = ctx.model(rlines)
+        pout = ctx.model(plines) if plines else []
         pos = {(ri, si): k for k, (ri, si, _) in enumerate(self.results)}
         for ri, si, a, n, info in rindex:
             refs = [common.dec(x) for x in rout[a:a + n]]
             refs = [tuple(sorted(x) for x in r) for r in refs]
             res = {"tables": info.get("variants"), "kind": info["kind"]}
+            if info.get("pess_line") is not None:
+                res["pess_ref"] = sorted(common.dec(pout[info["pess_line"]]))
             if info["undecided"]:
                 res.update(ref=None, why="ellipsoid cover certificate undecided")
                 self.stats["undecided_skipped"] += 1
@@ -216,6 +223,8 @@ class Analysis:
                 d["left_P"] = (sorted(set(st["pre"]["P"]) - set(post["P"])), [])
             if fam == "pv" and sorted(post["U"]) != U:
                 d["useful"] = (sorted(post["U"]), U)
+            if res.get("pess_ref") is not None and st["log"].get("pess_impl") != res["pess_ref"]:
+                d["pessimistic_set"] = (st["log"].get("pess_impl"), res["pess_ref"])
             yield ri, si, rec, st, res, d
 
 
